@@ -1,6 +1,6 @@
 //! C16 — rename preserves program meaning and is reversible.
 
-use crate::ctx::{catch, panic_sig, Shard};
+use crate::ctx::{fnv, catch, panic_sig, Shard};
 use crate::rng::Rng;
 use crate::walk;
 use serde_json::{json, Value as J};
@@ -51,11 +51,16 @@ fn project(rng: &mut Rng, unique: bool) -> Vec<String> {
     let pp = pick(&[&glob[..], &[pa.as_str()]].concat());
     let pv = pick(&[&glob[..], &[pa.as_str(), pp.as_str()]].concat());
     let po = pick(&[&glob[..], &[pa.as_str(), pp.as_str(), pv.as_str()]].concat());
+    // constants that are used only inside declarations (initial-value expressions), and a second global that may share a local constant's name
+    let pc = pick(&[&glob[..], &[pa.as_str(), pp.as_str(), pv.as_str(), po.as_str()]].concat());
+    let bc = pick(&[&glob[..], &[bi.as_str(), bo.as_str(), bt.as_str()]].concat());
+    let g2_fresh = pick(&glob);
+    let g2 = if !unique && fnv(&(pc.as_str(), bc.as_str(), g.as_str())) % 3 == 0 { pc.clone() } else { g2_fresh };
     let file1 = format!(
-        "FUNCTION {f} : DINT\nVAR_INPUT {fa} : DINT; END_VAR\nVAR {ft} : DINT; END_VAR\n{ft} := {fa} + DINT#1;\n{f} := {ft};\nEND_FUNCTION\n\nFUNCTION_BLOCK {fb}\nVAR_INPUT {bi} : DINT; END_VAR\nVAR_OUTPUT {bo} : DINT; END_VAR\nVAR {bt} : DINT; END_VAR\n{bt} := {f}({fa} := {bi});\n{bo} := {bo} + {bt};\nEND_FUNCTION_BLOCK\n"
+        "FUNCTION {f} : DINT\nVAR_INPUT {fa} : DINT; END_VAR\nVAR {ft} : DINT := {fa}; END_VAR\n{ft} := {ft} + DINT#1;\n{f} := {ft};\nEND_FUNCTION\n\nFUNCTION_BLOCK {fb}\nVAR_INPUT {bi} : DINT; END_VAR\nVAR_OUTPUT {bo} : DINT; END_VAR\nVAR CONSTANT {bc} : DINT := DINT#4; END_VAR\nVAR {bt} : DINT := {bc}; END_VAR\n{bt} := {bt} + {f}({fa} := {bi});\n{bo} := {bo} + {bt};\nEND_FUNCTION_BLOCK\n"
     );
     let file2 = format!(
-        "TYPE {ty} : STRUCT {s1} : DINT; {s2} : DINT; END_STRUCT END_TYPE\n\nPROGRAM {prog}\nVAR {pa} : {fb}; {pp} : {ty}; {pv} : DINT; {po} : DINT; END_VAR\nVAR_EXTERNAL {g} : DINT; END_VAR\n{pa}({bi} := {pv});\n{po} := {f}({fa} := {pa}.{bo}) + {pp}.{s1};\n{pp}.{s2} := {po};\n{pv} := {pv} + DINT#1;\n{g} := {g} + {pv};\nEND_PROGRAM\n\nCONFIGURATION Conf\nVAR_GLOBAL {g} : DINT; END_VAR\nPROGRAM P1 : {prog};\nEND_CONFIGURATION\n"
+        "TYPE {ty} : STRUCT {s1} : DINT; {s2} : DINT; END_STRUCT END_TYPE\n\nPROGRAM {prog}\nVAR CONSTANT {pc} : DINT := DINT#3; END_VAR\nVAR {pa} : {fb}; {pp} : {ty}; {pv} : DINT := {pc}; {po} : DINT := {pc} + DINT#1; END_VAR\nVAR_EXTERNAL {g} : DINT; END_VAR\n{pa}({bi} := {pv});\n{po} := {f}({fa} := {pa}.{bo}) + {pp}.{s1};\n{pp}.{s2} := {po};\n{pv} := {pv} + DINT#1;\n{g} := {g} + {pv};\nEND_PROGRAM\n\nCONFIGURATION Conf\nVAR_GLOBAL {g} : DINT; {g2} : DINT := DINT#100; END_VAR\nPROGRAM P1 : {prog};\nEND_CONFIGURATION\n"
     );
     vec![file1, file2]
 }
